@@ -1,6 +1,6 @@
 """C06 Server enforces request deadlines, never early — arming / expiry / who-may-abort."""
 from engine.facts import CannotDecide, callee_is, path_matches
-from .common import Table, reachable_local_fns, norm_path
+from .common import MAP_REMOVALS, Table, reachable_local_fns, norm_path
 from .deadlines import arming_rules, expiry_rules
 
 EXTRA_CONFIGS = ('default', 'tokio1', 'serde1', 'serde-transport')   # feature configurations re-analysed in the thorough tier
@@ -45,7 +45,7 @@ def run(ctx):
         for bb, t in g.calls():
             if callee_is(t, 'AbortHandle::abort'):
                 rs = P.root(P.operand(g, t['args'][0], at=bb))
-                ok = bool(rs) and all(P.is_call(r, 'HashMap::remove', 'HashMap::remove_entry') and abort_field in P.fpath(p) for r, p in rs)
+                ok = bool(rs) and all(P.is_call(r, *MAP_REMOVALS) and abort_field in P.fpath(p) for r, p in rs)
                 R.ob('C06.expiry', ('server table expiry', 'aborts the expired request\'s handler'), ok,
                      'the handle aborted on expiry belongs to the entry removed for the fired timer', [g.loc(t)])
     n_abort = sum(1 for g in table.bodies(exp) for _, t in g.calls() if callee_is(t, 'AbortHandle::abort'))
@@ -72,7 +72,7 @@ def run(ctx):
             rs = P.root(P.operand(g, t['args'][0], at=bb))
             ok = bool(rs)
             for r, p in rs:
-                if not (P.is_call(r, 'HashMap::remove', 'HashMap::remove_entry') and abort_field in P.fpath(p)):
+                if not (P.is_call(r, *MAP_REMOVALS) and abort_field in P.fpath(p)):
                     ok = False
                     continue
                 kr = P.root(P.args_of(r)[1], through_params=table.is_helper, callers=ctxs)
